@@ -316,7 +316,25 @@ var hsNativeFaultKinds = []string{"string", "error", "runtime", "custom"}
 // in the thorough tier's second half) is a sweep: the clean session first,
 // then one run per disk operation, per writer write and per native invocation
 // with a single fault at exactly that position.
+// hsCanonical are the inputs of the listed known findings; they are executed in every run
+// (units 0 and 1), so that a listed finding is reproduced - or seen to be gone - each time.
+func hsCanonical(i int) *HSPlan {
+	switch i {
+	case 0:
+		return &HSPlan{Budget: 200000, Calls: []HSCall{{Kind: "eval", Name: "known-finding-1", Src: core.Bytes("a := []int{0, 0}; " + NestedOpAssign(20))}}}
+	case 1:
+		return &HSPlan{Budget: 200000, Calls: []HSCall{{Kind: "eval", Name: "known-finding-2", Tree: true, Src: core.Bytes(SharedStructType(25))}}}
+	}
+	return nil
+}
+
+func (hostsafe) CanonicalUnits() int { return 2 }
+
 func (e hostsafe) RunUnit(seed uint64, tier string, unit int, exec func(plan any) *core.Result) {
+	if p := hsCanonical(unit); p != nil {
+		exec(p)
+		return
+	}
 	r := core.NewPRNG(core.Mix(seed, 0xC03, uint64(unit)))
 	p := e.genPlan(r)
 	sweep := unit%13 == 7
